@@ -66,7 +66,8 @@ MANIFEST = {
             '(content, link identity, move semantics); task states and '
             'forwarding are compared with the expected outcome per task.'
             "  Second session: contract on the real complete_url: the caller's context (strings or ru.Url objects, as Pilot.stage_in uses) is unchanged by a call and the same question gets the same answer twice."
-            "  Third session: pilot level - Pilot.stage_in / Pilot.stage_out (default and explicit directives, dict and list forms) of 1-3 pilots of one manager through the manager's real stager; the data must be at the place the call returns, with the content of THAT pilot.",
+            "  Third session: pilot level - Pilot.stage_in / Pilot.stage_out (default and explicit directives, dict and list forms) of 1-3 pilots of one manager through the manager's real stager; the data must be at the place the call returns, with the content of THAT pilot."
+            '  Several tasks may copy the same reference file to the same place in the pilot sandbox; a later failure of one of them leaves what the others staged.',
     'note': 'only the local staging backend exists offline (no SAGA); the '
             'driver replaces the proxy bridge and the executor; sampled, not '
             'enumerated.'}
